@@ -55,6 +55,14 @@ func Extra() []bgp.PathAttributeInterface {
 	if fs, err := bgp.NewFlowSpecVPN(bgp.RF_FS_IPv4_VPN, rd, comps); err == nil {
 		mp(bgp.RF_FS_IPv4_VPN, "", fs)
 	}
+	// a FlowSpec NLRI of more than 240 octets (two-octet length form)
+	var many []*bgp.FlowSpecComponentItem
+	for i := 0; i < 80; i++ {
+		many = append(many, bgp.NewFlowSpecComponentItem(bgp.DEC_NUM_OP_EQ, uint64(70000+i)))
+	}
+	if fs, err := bgp.NewFlowSpecUnicast(bgp.RF_FS_IPv4_UC, []bgp.FlowSpecComponentInterface{bgp.NewFlowSpecDestinationPrefix(d4), bgp.NewFlowSpecComponent(bgp.FLOW_SPEC_TYPE_DST_PORT, many)}); err == nil {
+		mp(bgp.RF_FS_IPv4_UC, "", fs)
+	}
 	mp(bgp.RF_EVPN, "10.0.0.1", bgp.NewEVPNIPMSIRoute(rd, 5, rt))
 	mp(bgp.RF_MUP_IPv4, "10.0.0.1", bgp.NewMUPInterworkSegmentDiscoveryRoute(rd, netip.MustParsePrefix("10.5.0.0/16")),
 		bgp.NewMUPDirectSegmentDiscoveryRoute(rd, netip.MustParseAddr("10.5.5.5")))
